@@ -153,6 +153,17 @@ class ControlModels(CommonModels):
         body_path.assume(z3.InRe(elem.items[1].t, z3.Star(z3.Range(mk_str('\x00'), mk_str('\x7f')))))
         before_logs = {k: body_path.heap.get(('g', k), ()) for k in ('fired', 'writes', 'percb')}
         snapshot = dict(body_path.heap)
+        # user errbacks run inside this loop and may submit commands (A11): the state they find must be the 'lost' state
+        # queue_command is verified from (connection marked lost, nothing in flight, nothing queued) - otherwise a command
+        # submitted from an errback joins a queue that is about to be discarded and never gets its failure
+        oid = ('c', id(real_proto()))
+        H0 = body_path.heap
+        cmds_now, cmd_now, lost_now = H0.get(('f', oid, 'commands')), H0.get(('f', oid, 'command')), H0.get(('g', 'lost'))
+        ok0 = z3.BoolVal(False)
+        if isinstance(cmds_now, VSeq) and lost_now is not None:
+            ok0 = z3.And(z3.Length(cmds_now.t) == 0, ex.is_term(body_path, cmd_now, NONE), lost_now.t)
+        ctx.oblige('loop.fail_outstanding.errbacks_find_the_lost_state', body_path, ok0,
+                   clause='every command that has not received its reply - also one submitted from inside an errback during the loss - fails exactly once')
         for p2, r in ex.assign(st.target, elem, body_path, fr):
             if isinstance(r, Raise):
                 ctx.oblige('loop.fail_outstanding.unpack', p2, z3.BoolVal(False))
